@@ -4,7 +4,9 @@ package snaps
 
 import (
 	"fmt"
+	"github.com/gkampitakis/go-snaps/internal/verifhook/sched"
 	"os"
+	"path/filepath"
 	"sort"
 	"strings"
 )
@@ -20,6 +22,7 @@ type c10Case struct {
 	Calls  map[string]int `json:"calls"`  // test name -> number of calls made in this run (0 / absent = test did not run)
 	Sort   bool           `json:"sort"`
 	Env    string         `json:"env"`
+	Extra  bool           `json:"extra,omitempty"` // two more addressed files (examined before and after f.snap) holding a STALE entry under an id that is live in f.snap
 }
 
 var c10Universe = []string{"TestA - 1", "TestA - 2", "TestA - 10", "TestA/x - 1", "TestB - 1", "Test_1 - 1", "TestA/c_01 - 1", "TestA/c_1 - 1", "FuzzA/seed#0 - 1", "TestA/9 - 10", "TestA/10 - 9"}
@@ -110,9 +113,12 @@ func c10Gen(c *vfCtx, emit func(c10Case)) {
 			for i := range ids {
 				bodies = append(bodies, c10Bodies[(i*5+bv*4+si)%len(c10Bodies)])
 			}
-			for _, lv := range live {
+			for li, lv := range live {
 				for _, srt := range []bool{false, true} {
 					emit(c10Case{IDs: ids, Bodies: bodies, Calls: lv, Sort: srt, Env: env})
+					if bv == 0 && (len(sub) <= 2 || (si+li)%4 == 0) {
+						emit(c10Case{IDs: ids, Bodies: bodies, Calls: lv, Sort: srt, Env: env, Extra: true})
+					}
 				}
 			}
 		}
@@ -191,6 +197,21 @@ func c10Run(c *vfCtx, cs c10Case) {
 			es = append(es, vfEntry{ID: cs.IDs[i], Body: cs.Bodies[i]})
 		}
 		sc := vfCleanScenario{Files: []vfNamedFile{{Name: "f.snap", Entries: es}}, Tests: tests, Count: 1, Sort: cs.Sort, Env: cs.Env, Clean2: true}
+		var foreign []string
+		if cs.Extra {
+			// every id that is live in f.snap also names a stale entry of a.snap and of z.snap (addressed by TestKeep only)
+			var fe []vfEntry
+			for _, id := range cs.IDs {
+				n, k, _ := vfSplitID(id)
+				if cs.Calls[n] >= k {
+					fe = append(fe, vfEntry{ID: id, Body: "stale here, live in f.snap"})
+					foreign = append(foreign, id)
+				}
+			}
+			keep := vfEntry{ID: "TestKeep - 1", Body: "k"}
+			sc.Files = append(sc.Files, vfNamedFile{Name: "a.snap", Entries: append(append([]vfEntry{}, fe...), keep)}, vfNamedFile{Name: "z.snap", Entries: append([]vfEntry{keep}, fe...)})
+			sc.Tests = append(append([]vfTestExec{}, tests...), vfTestExec{Name: "TestKeep", Calls: []vfCall{{API: "snap", Val: "k", File: "a"}, {API: "snap", Val: "k", File: "z"}}})
+		}
 		o := vfRunClean(c, sc)
 		c.count("transitions", int64(len(o.callObs)+2))
 		c.count("permutations", 1)
@@ -240,6 +261,26 @@ func c10Run(c *vfCtx, cs c10Case) {
 			fail("after Clean the file holds %s, surviving entries should be %s", vfShowEntries(post), vfShowEntries(want))
 			return
 		}
+		for _, xf := range []string{"a.snap", "z.snap"} {
+			if !cs.Extra {
+				break
+			}
+			xs, xerr := vfParse(o.after[xf].Data)
+			wantN := 1 + len(foreign)
+			if sc.mayDelete() {
+				wantN = 1
+			}
+			hasKeep := false
+			for _, e := range xs {
+				if e.ID == "TestKeep - 1" && e.Body == "k" {
+					hasKeep = true
+				}
+			}
+			if xerr != nil || !hasKeep || len(xs) != wantN {
+				fail("%s (addressed by TestKeep only; stale entries %v, delete allowed=%v) holds %s after Clean (%v)", xf, foreign, sc.mayDelete(), vfShowEntries(xs), xerr)
+				return
+			}
+		}
 		sortedAlready := true
 		for i := 1; i < len(pre); i++ {
 			if cmp, tie := vfNaturalCmp(pre[i-1].ID, pre[i].ID); cmp > 0 && !tie {
@@ -266,7 +307,13 @@ func c10Run(c *vfCtx, cs c10Case) {
 			return
 		}
 		if !needPrune && (!sc.maySort() || sortedAlready) {
-			if muts := vfMutOps(o.ops); len(muts) > 0 {
+			var muts []sched.Op
+			for _, op := range vfMutOps(o.ops) {
+				if filepath.Base(op.Res) == "f.snap" {
+					muts = append(muts, op)
+				}
+			}
+			if len(muts) > 0 {
 				fail("the file needs neither pruning nor sorting, yet Clean performed %s", vfShowOps(muts))
 				return
 			}
